@@ -201,6 +201,18 @@ Theorem route_swapalpha_arg_refuted :
 Proof. exact RouteMain.route_swapalpha_arg_refuted. Qed.
 Print Assumptions route_swapalpha_arg_refuted.
 
+(* fixes/C07-alias-names: the routers also recognise the other library names of two gates they route; `is_swapk`
+   (the guard of all routing theorems) now covers them, the old list did not *)
+Theorem route_alias_names :
+  existsb (String.eqb "SWAPALPHA") swap_gates_old = false /\ existsb (String.eqb "iSWAP") swap_gates_old = false /\
+  is_swapk "SWAPALPHA" = true /\ is_swapk "iSWAP" = true /\
+  route fixed Linear 4 [SWg "SWAPALPHA" (Some 4) 0 3] =
+    Some [SWAPg 0 1; SWAPg 2 3; SWg "SWAPALPHA" (Some 4) 1 2; SWAPg 2 3; SWAPg 0 1] /\
+  adjacent_gates fixed [SWg "iSWAP" None 3 1] = Some [SWAPg 1 2; SWg "iSWAP" None 2 3; SWAPg 1 2] /\
+  route fixed Circular 5 [SWg "iSWAP" None 4 0] = Some [SWg "iSWAP" None 4 0].
+Proof. exact RouteMain.route_alias_names. Qed.
+Print Assumptions route_alias_names.
+
 (* ---- non-vacuity: concrete inputs inhabiting the hypotheses, hitting every branch ----------- *)
 Example ex_backward_odd :   (* ring, backward path with an odd number of hops, N = 7 *)
   wf_handled (Cg "CNOT" 0 4) = true /\ in_rangeb 7 (Cg "CNOT" 0 4) = true /\
